@@ -98,3 +98,17 @@ fn hover_on_variables_defsets_and_multiclasses() {
         assert_eq!(usize::from(target.range.start()), want, "WITNESS definition target at offset {off} of {t:?} is not the declaring identifier");
     }
 }
+#[test]
+fn a_blank_line_ends_the_doc_comment_also_in_crlf_files_and_when_it_carries_indentation() {
+    let t = "class Reg;\r\n// legacy, kept for the old backend\r\n\r\n// bank of registers\r\ndefset list<Reg> Bank = {\r\n  def R0 : Reg;\r\n}\r\nclass Holder {\r\n  // scratch value\r\n  \r\n  // number of registers\r\n  int Count = 1;\r\n}\r\ndef H : Holder { let Count = 2; }\r\ndefvar all = Bank;\r\n";
+    let (a, ids) = analysis(&[("/main.td", t)]);
+    for (off, doc) in [(at(t, "defvar all = Bank", 14), vec!["bank of registers"]), (at(t, "let Count", 5), vec!["number of registers"])] {
+        let h = a.hover(FilePosition::new(ids[0], off.into())).unwrap_or_else(|| panic!("WITNESS no hover at offset {off} of {t:?}"));
+        let lines: Vec<String> = h.document.as_deref().unwrap_or("").lines().map(|l| l.trim().to_string()).filter(|l| !l.is_empty()).collect();
+        assert_eq!(lines, doc, "WITNESS hover doc comment at offset {off} of {t:?}: only the contiguous // lines directly above the declaration");
+    }
+    let t2 = "class Holder {\n  // scratch value\n  \n  // number of registers\n  int Count = 1;\n}\ndef H : Holder { let Count = 2; }\n";
+    let (a, ids) = analysis(&[("/main.td", t2)]);
+    let h = a.hover(FilePosition::new(ids[0], at(t2, "let Count", 5).into())).unwrap_or_else(|| panic!("WITNESS no hover in {t2:?}"));
+    assert_eq!(h.document.as_deref().map(str::trim), Some("number of registers"), "WITNESS hover doc comment of Count in {t2:?}");
+}
